@@ -555,6 +555,31 @@ func (e *Engine) ruleL4(rule string, r *lockResult) {
 		if len(r.locks[f]) > 1 && bad == "" {
 			// two locks not ordered by an unlock: covered by L2 if nested; if on disjoint branches it is fine
 		}
+		// a locking method that also calls another locking method of the client (outside its own critical section, or L2
+		// would report a self-deadlock): the call is a critical section of its own, so the method reads in one and writes
+		// in another – check-then-act with a window in between. (The batch methods take no lock themselves: they are
+		// compositions of atomic calls by design and are not judged here.)
+		if bad == "" {
+			instrs(f, func(in ssa.Instruction) {
+				c, ok := in.(ssa.CallInstruction)
+				if !ok || bad != "" || isBuiltin(c) {
+					return
+				}
+				g := c.Common().StaticCallee()
+				if g == nil || g == f || e.fnRole(g) != e.fnRole(f) {
+					return
+				}
+				locksToo := false
+				for h := range e.reach(g) {
+					if e.fnRole(h) == e.fnRole(f) && len(r.locks[h]) > 0 && !e.lockedGetter(e.fnRole(f), r, h) {
+						locksToo = true
+					}
+				}
+				if locksToo {
+					bad = fmt.Sprintf("the method takes the mutex itself and also calls %s at %s, which takes it on its own: two critical sections – another call can interleave between what one of them reads and what the other writes", e.fname(g), e.ipos(in))
+				}
+			})
+		}
 		// guarded-derived values used after explicit unlock
 		if bad == "" && len(r.unlocks[f]) > 0 {
 			tainted := map[ssa.Value]bool{}
